@@ -520,9 +520,7 @@ func RunC11(tier string) int {
 				}
 			}
 		}
-		if i < 3 {
-			run.Sample(map[string]any{"workspace": w, "reference_defects": reasons})
-		}
+		run.Sample(map[string]any{"workspace": w, "reference_defects": reasons})
 	})
 	run.Assume("a testonly target depending on a testonly target is allowed (documented behaviour); overlapping outputs of one and the same target are not judged")
 	return run.Finish()
